@@ -3,6 +3,7 @@ from sym import Explorer, explore, show, lin, subterms
 from pat import called, canon, is_call, deref_all, strip_casts, agg_variant, const_of
 from mir import natural_loops
 from rules.layout import cv
+import prov
 
 LEVELS = ['NULL_LEVEL', 'ARRAY_LEVEL', 'OBJECT_LEVEL', 'STRING_LEVEL', 'NUMBER_LEVEL', 'TRUE_LEVEL', 'FALSE_LEVEL', 'INVALID_LEVEL']
 
@@ -62,14 +63,14 @@ def r04_1(ctx, run, rule='R04.1'):
                                            f'nested containers are ranked {cl}, not between NULL_LEVEL and STRING_LEVEL', f'{b.file}:{b.line}')
 
 
-def header_pair(p, f):
+def header_pair(p, f, body):
     """(left kind, right kind) tested on a path of compare/compare_container: kinds 'S','A','O' or None(otherwise)."""
     tags = {cv(f, 'SCALAR_CONTAINER_TAG'): 'S', cv(f, 'ARRAY_CONTAINER_TAG'): 'A', cv(f, 'OBJECT_CONTAINER_TAG'): 'O'}
     out = {}
     for c in p.conds:
         t = c[0]
         if t[0] == 'bin' and t[1] == 'BitAnd' and any(x[0] == 'const' and x[1] == 0xE0000000 for x in (t[2], t[3])):
-            side = 'L' if 'left' in show(t) else ('R' if 'right' in show(t) else '?')
+            side = term_side(t, body)
             if c[1] == 'eq':
                 out.setdefault(side, set()).add(tags.get(c[2], c[2]))
     return out
@@ -92,15 +93,24 @@ def outcome(p):
     return show(r)[:40]
 
 
-def arg_sides(call_t):
-    """for a comparator call: tuple of 'L'/'R'/'?' per argument, by the names of the values it derives from"""
-    out = []
-    for a in call_t[2]:
-        names = {str(s[2]) for s in subterms(a) if s[0] in ('init', 'hav') and len(s) > 2 and s[2]}
-        l = any(n.startswith('left') or n.startswith('l_') for n in names)
-        r = any(n.startswith('right') or n.startswith('r_') for n in names)
-        out.append('L' if l and not r else 'R' if r and not l else '?')
-    return out
+def term_side(t, body):
+    """'L' / 'R' / '?' : which operand of the (symmetric) comparator `body` the value derives from, by parameter
+    provenance (prov.sides: first half of the parameters = left operand, second half = right operand)."""
+    sd = prov.sides(body) or {}
+    l = r = False
+    for s in subterms(t):
+        if s[0] in ('init', 'hav') and len(s) > 1 and isinstance(s[1], int):
+            v = sd.get(s[1])
+            if v in ('L', 'LR'):
+                l = True
+            if v in ('R', 'LR'):
+                r = True
+    return 'L' if l and not r else 'R' if r and not l else '?'
+
+
+def arg_sides(call_t, body):
+    """for a comparator call: 'L'/'R'/'?' per argument"""
+    return [term_side(a, body) for a in call_t[2]]
 
 
 def r04_2(ctx, run, rule='R04.2'):
@@ -124,7 +134,7 @@ def r04_2(ctx, run, rule='R04.2'):
             sn = [c for c in p.conds if is_call(c[0], 'functions::is_jsonb')]
             if sn and not all(c[2] is True for c in sn):
                 continue
-            hp = header_pair(p, f)
+            hp = header_pair(p, f, b)
             if 'L' not in hp or 'R' not in hp:
                 if hp and outcome(p) == 'Err':
                     table.setdefault('otherwise', set()).add('Err')
@@ -143,7 +153,7 @@ def r04_2(ctx, run, rule='R04.2'):
             # argument order of the delegating calls
             rr = deref_all(p.ret)
             if rr[0] == 'call' and canon(rr[1]).split('::')[-1] in ('compare_scalar', 'compare_array', 'compare_object'):
-                sides = arg_sides(rr)
+                sides = arg_sides(rr, b)
                 want = ['L', 'L', 'R', 'R']
                 okk = all(s == w or s == '?' for s, w in zip(sides, want)) and sides.count('?') <= 1
                 d = f'args[{canon(rr[1]).split("::")[-1]}]'
@@ -199,7 +209,7 @@ def r04_2b(ctx, run, rule='R04.2'):
             r = deref_all(p.ret)
             inner = r[2][0] if agg_variant(r) and r[1][2] == 'Ok' else r
             inner = deref_all(inner)
-            ok = inner[0] == 'call' and canon(inner[1]).endswith('Ord::cmp') and arg_sides(inner)[:2] == ['L', 'R']
+            ok = inner[0] == 'call' and canon(inner[1]).endswith('Ord::cmp') and arg_sides(inner, b)[:2] == ['L', 'R']
             (run.proved if ok else run.violation)(rule, b.path, 'rank-compare', 'left_level.cmp(&right_level)' if ok else f'different kinds are ordered by {show(inner)[:80]}, not left rank vs right rank', loc)
             continue
         tcs = [c for c in p.conds if 'type_code' in show(c[0]) and c[1] == 'eq']
@@ -225,17 +235,32 @@ def r04_2b(ctx, run, rule='R04.2'):
                 ok = o == 'Equal'
                 why = f'returns {o or show(r)[:40]}'
             elif want == 'compare_container':
-                ok = r[0] == 'call' and canon(r[1]).endswith('compare_container') and arg_sides(r) == ['L', 'R']
+                ok = r[0] == 'call' and canon(r[1]).endswith('compare_container') and arg_sides(r, b) == ['L', 'R']
                 why = show(r)[:60]
             else:
                 inner = r[2][0] if agg_variant(r) and r[1][2] == 'Ok' else r
                 inner = deref_all(inner)
-                ok = inner[0] == 'call' and canon(inner[1]).endswith('Ord::cmp') and arg_sides(inner)[:2] == ['L', 'R']
+                ok = inner[0] == 'call' and canon(inner[1]).endswith('Ord::cmp') and arg_sides(inner, b)[:2] == ['L', 'R']
                 if ok and k[0] == 'NUMBER_TAG':
                     ok = all(any(is_call(s, 'Number::decode') for s in subterms(a)) for a in inner[2][:2])
                 why = show(inner)[:80]
         (run.proved if ok else run.violation)(rule, b.path, d, {'Equal': 'Equal', 'compare_container': 'compare_container(left, right)', 'cmp': 'left.cmp(right) on decoded values'}[want] if ok else
                                                f'two {k[0]} entries are compared by {why}', loc)
+
+
+def is_length_term(a, body, f):
+    """the value is a container header masked with CONTAINER_HEADER_LEN_MASK (directly, or a local defined so)"""
+    from mir import Expr, walk
+    mask = cv(f, 'CONTAINER_HEADER_LEN_MASK')
+    for s in subterms(a):
+        if s[0] == 'bin' and s[1] == 'BitAnd' and any(x[0] == 'const' and x[1] == mask for x in (s[2], s[3])):
+            return True
+        if s[0] in ('init', 'hav') and isinstance(s[1], int):
+            e = Expr(body, expand_named=True).local(s[1])
+            for w in walk(e):
+                if w[0] == 'bin' and w[1] == 'BitAnd' and any(x[0] == 'const' and x[1] == mask for x in (w[3], w[4])):
+                    return True
+    return False
 
 
 def r04_6(ctx, run, rule='R04.6'):
@@ -263,8 +288,8 @@ def r04_6(ctx, run, rule='R04.6'):
                 inner = deref_all(inner)
                 if inner[0] == 'call' and canon(inner[1]).endswith('Ord::cmp'):
                     tb += 1
-                    sides = arg_sides(inner)[:2]
-                    lens = all(any(s[0] == 'bin' and s[1] == 'BitAnd' for s in subterms(a)) or 'length' in show(a) for a in inner[2][:2])
+                    sides = arg_sides(inner, b)[:2]
+                    lens = all(is_length_term(a, b, f) for a in inner[2][:2])
                     ok = sides == ['L', 'R'] and lens
                     (run.proved if ok else run.violation)(rule, fn, 'tie-break', 'left_length.cmp(&right_length) after a common prefix of equal elements' if ok else
                                                            f'after equal common prefixes the result is {show(inner)[:80]}, not left length vs right length', f'{b.file}:{b.line}')
